@@ -989,3 +989,402 @@ Proof.
            intros Hq. apply (g_fnode_held _ N t u); [exact Hnd|symmetry; exact Hq].
 Qed.
 End Steps.
+
+Ltac inv_local Gx t E L :=
+  pose proof (g_local _ _ (g_m _ _ Gx) t) as L; rewrite E in L; inversion L; subst; clear L.
+
+Lemma tid_fname f : tid_of_name (fname f) = f.
+Proof. unfold tid_of_name, fname, Zn. replace (1000 + Z.of_nat f - 1000) with (Z.of_nat f) by lia. apply Nat2Z.id. Qed.
+
+Lemma lastn_snoc ch : forall a b u, lastn a (ch ++ [(b, u)]) = b.
+Proof. induction ch as [|[b' u'] rest IH]; intros a b u; cbn; [reflexivity|apply IH]. Qed.
+
+Lemma linked_snoc m sf ch b u : forall a,
+  linked m sf a ch -> (exists r, sf u = WLink 0 (lastn a ch) b :: r) -> nnext m b = O ->
+  linked m sf a (ch ++ [(b, u)]).
+Proof.
+  induction ch as [|[b' u'] rest IH]; intros a L Hs Hb; cbn in *.
+  - split; [right; split; assumption|exact Hb].
+  - destruct L as [L1 L2]. split; [exact L1|]. apply IH; assumption.
+Qed.
+
+Lemma linked_link m sf sf' p b u r : forall ch a,
+  NoDup (a :: map fst ch) -> NoDup (map snd ch) -> In (b, u) ch ->
+  sf u = WLink 0 p b :: r -> ~ linking (sf' u) -> (forall u', u' <> u -> sf' u' = sf u') ->
+  linked m sf a ch -> linked (set_nnext m p b) sf' a ch /\ In p (a :: map fst ch) /\ nnext m p = O.
+Proof.
+  induction ch as [|[b' u'] rest IH]; intros a Nd Ns Hi Hs Hl Ho L; [destruct Hi|].
+  cbn [linked map fst snd] in *. destruct L as [D Lr].
+  inversion Nd as [|? ? Na Nd']; subst. inversion Ns as [|? ? Nu Ns']; subst.
+  destruct (Nat.eq_dec u' u) as [->|Ne].
+  - assert (b' = b).
+    { destruct Hi as [Hi|Hi]; [congruence|]. exfalso. apply Nu. apply in_map_iff. exists (b, u). auto. }
+    subst b'. destruct D as [[_ D]|[D1 [r' D2]]]; [exfalso; apply D; rewrite Hs; exact I|].
+    assert (p = a) by congruence. subst p. split; [|split; [left; reflexivity|exact D1]]. split.
+    + left. split; [cbn; apply upd_same|exact Hl].
+    + apply (linked_frame m _ sf sf'); [| |exact Lr].
+      * intros nd Hn. cbn. apply upd_other. intros ->. apply Na. exact Hn.
+      * intros u' Hu'. rewrite Ho; [tauto|]. intros ->. exact (Nu Hu').
+  - destruct Hi as [Hi|Hi]; [congruence|].
+    destruct (IH b' Nd' Ns' Hi Hs Hl Ho Lr) as (L' & Hp & Hz). split; [|split; [right; exact Hp|exact Hz]]. split; [|exact L'].
+    assert (a <> p) by (intros ->; exact (Na Hp)).
+    cbn [nnext set_nnext]. rewrite upd_other by exact H. rewrite (Ho u' Ne). exact D.
+Qed.
+
+Lemma linked_head m sf a ch nx : linked m sf a ch -> nnext m a = nx -> nx <> O ->
+  exists f rest, ch = (nx, f) :: rest /\ ~ linking (sf f) /\ linked m sf nx rest.
+Proof.
+  intros L Hn Hz. destruct ch as [|[b u] rest]; cbn in L; [congruence|].
+  destruct L as [[[A B]|[A _]] Lr]; [|congruence]. exists u, rest. split; [congruence|].
+  split; [exact B|]. replace nx with b by congruence. exact Lr.
+Qed.
+
+Section Steps2.
+Variable count : Z.
+Hypothesis Hcount : 1 <= count.
+
+(* the fiber whose entry is being consumed: its clause does not depend on its fnode *)
+Lemma lok_infl_fnode x x' f sg :
+  Qp x f -> Fp x f -> is_wait sg ->
+  fstate (mem (base x')) f = fstate (mem (base x)) f -> pend (mem (base x')) f = pend (mem (base x)) f ->
+  blocked (mem (base x')) f = blocked (mem (base x)) f ->
+  pw x' = pw x -> chain x' = chain x -> infl x' = infl x ->
+  lok count x f sg -> lok count x' f sg.
+Proof.
+  intros Hq Hf Hw A B C Ep Ec Ei L.
+  assert (Q' : Qp x' f) by (unfold Qp in *; rewrite Ep; exact Hq).
+  assert (F' : Fp x' f) by (unfold Fp in *; rewrite Ei; exact Hf).
+  destruct L; try (destruct Hw as (n' & k' & Hw); discriminate);
+    repeat match goal with
+           | H : unq _ _ |- _ => destruct H as (_ & _ & Hnf & _); contradiction
+           | H : serl _ _ |- _ => destruct H as (Hnq & _); contradiction
+           end; try contradiction.
+  - constructor. destruct H as [P|P].
+    + left. destruct P as (P1 & P2 & [(P3 & P4 & P5)|(P3 & _)]); [|contradiction].
+      unfold presleep. rewrite A, B, C. split; [exact P1|]. split; [exact P2|]. left. auto.
+    + destruct P as (_ & P & _). contradiction.
+  - constructor. destruct H as [[S P]|[S P]].
+    + left. split; [exact S|]. destruct P as (P1 & P2 & [(P3 & P4 & P5)|(P3 & _)]); [|contradiction].
+      unfold presleep. rewrite A, B, C. split; [exact P1|]. split; [exact P2|]. left. auto.
+    + destruct P as (_ & P & _). contradiction.
+  - constructor. destruct H as (P1 & P2 & [(P3 & P4 & P5)|(P3 & _)]); [|contradiction].
+    unfold presleep. rewrite A, B, C. split; [exact P1|]. split; [exact P2|]. left. auto.
+  - constructor. destruct H as (P1 & P2 & [(P3 & P4 & P5)|(P3 & _)]); [|contradiction].
+    unfold presleep. rewrite A, B, C. split; [exact P1|]. split; [exact P2|]. left. auto.
+  - constructor. destruct H as (P1 & P2 & [(P3 & P4 & P5)|(P3 & _)]); [|contradiction].
+    unfold presleep. rewrite A, B, C. split; [exact P1|]. split; [exact P2|]. left. auto.
+  - constructor. destruct H as (P1 & P2 & [(P3 & P4 & P5)|(P3 & _)]); [|contradiction].
+    unfold presleep. rewrite A, B, C. split; [exact P1|]. split; [exact P2|]. left. auto.
+  - constructor. destruct H as [(P1 & P2 & P3 & P4 & P5)|(P1 & _)]; [|contradiction].
+    left. rewrite A, B, C. auto.
+Qed.
+
+Lemma step_kout x t wc h n k :
+  G count x -> stk (base x) t = [KOut 0 (count - 1) wc h; FC (BRet n k 1)] -> G count (lstep x t).
+Proof.
+  intros Gx E. inv_local Gx t E L.
+  match goal with H : serl _ _ |- _ => pose proof H as (Sq & Squ & Sfn & Sfs) end.
+  match goal with H : infl x = Some _ |- _ => rename H into Hi end.
+  match goal with H : ndata _ h = _ |- _ => rename H into Hd end.
+  destruct (g_infl _ (g_l _ _ Gx) _ Hi) as [Fq Fnc].
+  destruct (g_pw _ _ (g_a _ _ Gx) _ Fq) as (Flt & Fw & _).
+  assert (Ntf : t <> f) by (intros ->; exact (Sq Fq)).
+  destruct Gx as [A Lg N M].
+  set (m := mem (base x)) in *.
+  pose proof (g_cnt _ _ M) as Ec.
+  assert (K : kstep bc (cret (cnt (base x))) m t (stk (base x) t)
+              = (set_fnode m f h, ev t (l_data h) 9 (ndata m h), [KState 0 (count - 1) wc f; FC (BRet n k 1)])).
+  { rewrite E. cbn [kstep]. fold m. rewrite Hd, tid_fname. reflexivity. }
+  destruct (lstep_view x t _ _ _ K) as (Em & Es & Eo & Ecn & Enn).
+  assert (Gn : ghost_neutral (stk (base x) t)) by (rewrite E; exact I).
+  destruct (ghost_neutral_eq x t Gn) as (Gc & Gi & Gp).
+  assert (Eb : bot (stk (base (lstep x t)) t) = bot (stk (base x) t) \/ exists n k, bot (stk (base x) t) = Some (BNext n k))
+    by (left; rewrite Es, E; reflexivity).
+  destruct (bot_same_logs x t Eb) as [Gr Ga].
+  assert (Eno : nodes (lstep x t) = nodes x) by (unfold nodes; rewrite Em, Gc; reflexivity).
+  assert (Hht : held (stk (base x) t) = h) by (rewrite E; reflexivity).
+  assert (Hhn : ~ In h (nodes x)) by (rewrite <- Hht; apply (g_held_nodes _ N); rewrite Hht; assumption).
+  assert (Hf' : forall u, fnode (mem (base (lstep x t))) u = if Nat.eqb u f then h else fnode m u).
+  { intros u. rewrite Em. cbn. unfold upd. reflexivity. }
+  assert (Hh' : forall u, held (stk (base (lstep x t)) u) = if Nat.eqb u t then O else held (stk (base x) u)).
+  { intros u. destruct (Nat.eqb_spec u t) as [->|Ne]; [rewrite Es; reflexivity|rewrite Eo by exact Ne; reflexivity]. }
+  constructor.
+  - apply (GA_frame count x); auto; try (rewrite Em; reflexivity).
+    intros u. destruct (Nat.eq_dec u t) as [->|Ne]; [rewrite Es, E; obs|].
+    rewrite Eo by exact Ne. apply same_obs_refl.
+  - apply (GL_frame x); auto; try (rewrite Em; reflexivity).
+    + rewrite Gp. auto.
+    + intros u _. destruct (Nat.eq_dec u t) as [->|Ne]; [rewrite Es, E; cbn; tauto|].
+      rewrite Eo by exact Ne. tauto.
+  - destruct N as [N1 N2 N3 N4 N5]. constructor; intros *; rewrite ?Hf', ?Hh', ?Eno; subst m.
+    + destruct (Nat.eqb_spec u f) as [->|Ne]; destruct (Nat.eqb_spec u' f) as [->|Ne']; auto.
+      * intros Hz Hq. exfalso. apply (N3 u' t); [rewrite <- Hq; exact Hz|rewrite Hht; symmetry; exact Hq].
+      * intros Hu Hq. exfalso. apply (N3 u t); [exact Hu|rewrite Hht; exact Hq].
+    + destruct (Nat.eqb_spec u t) as [->|Ne]; [congruence|]. destruct (Nat.eqb_spec u' t) as [->|Ne']; [congruence|apply N2].
+    + destruct (Nat.eqb_spec u f) as [->|Ne]; destruct (Nat.eqb_spec u' t) as [->|Ne']; auto.
+      intros _ Hq. apply Ne'. symmetry. apply N2; [rewrite Hht; assumption|congruence].
+    + destruct (Nat.eqb_spec u f) as [->|Ne]; [intros _; exact Hhn|apply N4].
+    + destruct (Nat.eqb_spec u t) as [->|Ne]; [congruence|apply N5].
+  - destruct M as [M1 M2 M3 M4]. constructor.
+    + rewrite Ecn. exact M1.
+    + rewrite Em. eapply slots_none_same; eauto.
+    + intros u. rewrite Em. apply M3.
+    + intros u. destruct (Nat.eq_dec u t) as [->|Ne].
+      * rewrite Es. constructor.
+        -- unfold serl, Qp, quiet in *. rewrite Gp, Em. cbn [fnode fstate pend blocked set_fnode].
+           rewrite upd_other by exact Ntf. auto.
+        -- rewrite Gi. exact Hi.
+        -- rewrite Em. cbn. rewrite upd_same. assumption.
+      * rewrite Eo by exact Ne. destruct (Nat.eq_dec u f) as [->|Nuf].
+        -- apply (lok_infl_fnode x); auto; rewrite ?Em; try reflexivity.
+        -- apply (lok_frame count x); [| | | |apply M4].
+           ++ rewrite Em. constructor; cbn; try reflexivity. apply upd_other. exact Nuf.
+           ++ apply same_ghost_refl; assumption.
+           ++ intros Hs. exfalso. apply Ne. apply (g_ser1 _ _ A); [exact Hs|rewrite E; do 2 eexists; reflexivity].
+           ++ intros _. rewrite Em. auto.
+Qed.
+
+Lemma step_wxchg x t nd n k :
+  G count x -> stk (base x) t = [WXchg 0 nd; FC (BRet n k 0)] -> G count (lstep x t).
+Proof.
+  intros Gx E. inv_local Gx t E L.
+  match goal with H : unq _ _ |- _ => pose proof H as (Uq & Uc & Uf & Uqt) end.
+  destruct Gx as [A Lg N M].
+  set (m := mem (base x)) in *. set (p := qtail m 0%nat).
+  pose proof (g_cnt _ _ M) as Ec.
+  assert (K : kstep bc (cret (cnt (base x))) m t (stk (base x) t)
+              = (set_qtail m 0%nat nd, ev t (l_tail 0) 43 (Zn p), [WLink 0 p nd; FC (BRet n k 0)])).
+  { rewrite E. reflexivity. }
+  destruct (lstep_view x t _ _ _ K) as (Em & Es & Eo & Ecn & Enn).
+  assert (Gc : chain (lstep x t) = chain x ++ [(nd, t)]) by (rewrite lstep_chain, E; reflexivity).
+  assert (Gi : infl (lstep x t) = infl x) by (rewrite lstep_infl, E; reflexivity).
+  assert (Gp : pw (lstep x t) = pw x) by (rewrite lstep_pw, E; reflexivity).
+  assert (Eb : bot (stk (base (lstep x t)) t) = bot (stk (base x) t) \/ exists n k, bot (stk (base x) t) = Some (BNext n k))
+    by (left; rewrite Es, E; reflexivity).
+  destruct (bot_same_logs x t Eb) as [Gr Ga].
+  assert (Eno : nodes (lstep x t) = nodes x ++ [nd]).
+  { unfold nodes. rewrite Em, Gc, map_app. reflexivity. }
+  assert (Hht : held (stk (base x) t) = nd) by (rewrite E; reflexivity).
+  assert (Hnn : ~ In nd (nodes x)) by (rewrite <- Hht; apply (g_held_nodes _ N); rewrite Hht; assumption).
+  assert (Hh' : forall u, held (stk (base (lstep x t)) u) = if Nat.eqb u t then O else held (stk (base x) u)).
+  { intros u. destruct (Nat.eqb_spec u t) as [->|Ne]; [rewrite Es; reflexivity|rewrite Eo by exact Ne; reflexivity]. }
+  destruct Lg as [L1 L2 L3 L4 L5 L6 L7].
+  constructor.
+  - apply (GA_frame count x); auto; try (rewrite Em; reflexivity).
+    intros u. destruct (Nat.eq_dec u t) as [->|Ne]; [rewrite Es, E; obs|].
+    rewrite Eo by exact Ne. apply same_obs_refl.
+  - constructor; rewrite ?Eno, ?Gc, ?Gi, ?Gp.
+    + apply nodup_snoc; assumption.
+    + intros nd' Hi. apply in_app_iff in Hi. destruct Hi as [Hi|[<-|[]]]; auto.
+    + rewrite Em. cbn [qtail qhead set_qtail]. rewrite upd_same, lastn_snoc. reflexivity.
+    + rewrite Em. cbn [qhead set_qtail]. apply linked_snoc.
+      * apply (linked_frame m _ (stk (base x))); [reflexivity| |exact L4].
+        intros u Hu. rewrite Eo; [tauto|]. intros ->. exact (Uc Hu).
+      * rewrite Es. fold m in L3. rewrite <- L3. eexists. reflexivity.
+      * assumption.
+    + intros nd' u Hi. rewrite Em. cbn [ndata set_qtail]. apply in_app_iff in Hi.
+      destruct Hi as [Hi|[Hi|[]]]; [apply L5; exact Hi|]. injection Hi as <- <-. split; assumption.
+    + rewrite map_app. cbn. apply nodup_snoc; assumption.
+    + intros f Hf. destruct (L7 f Hf) as [B1 B2]. split; [exact B1|]. rewrite map_app. cbn.
+      intros Hi. apply in_app_iff in Hi. destruct Hi as [Hi|[<-|[]]]; [exact (B2 Hi)|exact (Uf Hf)].
+  - destruct N as [N1 N2 N3 N4 N5]. constructor; intros *; rewrite ?Hh', ?Eno, ?Em; cbn [fnode set_qtail]; fold m.
+    + apply N1.
+    + destruct (Nat.eqb_spec u t) as [->|Ne]; [congruence|]. destruct (Nat.eqb_spec u' t) as [->|Ne']; [congruence|apply N2].
+    + destruct (Nat.eqb_spec u' t) as [->|Ne']; [auto|apply N3].
+    + intros Hu Hi. apply in_app_iff in Hi. destruct Hi as [Hi|[Hi|[]]]; [exact (N4 u Hu Hi)|].
+      apply (N3 u t Hu). rewrite Hht. symmetry. exact Hi.
+    + destruct (Nat.eqb_spec u t) as [->|Ne]; [congruence|]. intros Hu Hi. apply in_app_iff in Hi.
+      destruct Hi as [Hi|[Hi|[]]]; [exact (N5 u Hu Hi)|]. apply Ne. apply N2; [exact Hu|congruence].
+  - destruct M as [M1 M2 M3 M4]. constructor.
+    + rewrite Ecn. exact M1.
+    + rewrite Em. eapply slots_none_same; eauto.
+    + intros u. rewrite Em. apply M3.
+    + intros u. destruct (Nat.eq_dec u t) as [->|Ne].
+      * rewrite Es. constructor; unfold Qp, Fp, quiet in *; rewrite ?Gp, ?Gc, ?Gi, ?Em; auto.
+        apply in_app_iff. right. left. reflexivity.
+      * rewrite Eo by exact Ne. apply (lok_frame count x); [| | | |apply M4].
+        -- rewrite Em. constructor; reflexivity.
+        -- constructor; unfold Qp, Cp, Fp; rewrite ?Gp, ?Gc, ?Gi; try tauto.
+           ++ rewrite map_app, in_app_iff. cbn. split; [intros [H|[H|[]]]; [exact H|congruence]|auto].
+           ++ intros nd'. rewrite in_app_iff. cbn. split; [intros [H|[H|[]]]; [exact H|congruence]|auto].
+        -- intros _. rewrite Em. cbn. auto.
+        -- intros _. rewrite Em. auto.
+Qed.
+
+Lemma step_wlink x t p nd n k :
+  G count x -> stk (base x) t = [WLink 0 p nd; FC (BRet n k 0)] -> G count (lstep x t).
+Proof.
+  intros Gx E. inv_local Gx t E L.
+  match goal with H : quiet _ _ |- _ => pose proof H as (Hpe & Hbl) end.
+  match goal with H : In (nd, t) _ |- _ => rename H into Hin end.
+  destruct Gx as [A Lg N M].
+  set (m := mem (base x)) in *.
+  pose proof (g_cnt _ _ M) as Ec.
+  assert (K : kstep bc (cret (cnt (base x))) m t (stk (base x) t)
+              = (set_nnext m p nd, ev t (l_next p) 19 (Zn nd), [YRead; FC (BRet n k 0)])).
+  { rewrite E. reflexivity. }
+  destruct (lstep_view x t _ _ _ K) as (Em & Es & Eo & Ecn & Enn).
+  assert (Gn : ghost_neutral (stk (base x) t)) by (rewrite E; exact I).
+  destruct (ghost_neutral_eq x t Gn) as (Gc & Gi & Gp).
+  assert (Eb : bot (stk (base (lstep x t)) t) = bot (stk (base x) t) \/ exists n k, bot (stk (base x) t) = Some (BNext n k))
+    by (left; rewrite Es, E; reflexivity).
+  destruct (bot_same_logs x t Eb) as [Gr Ga].
+  assert (Eno : nodes (lstep x t) = nodes x) by (unfold nodes; rewrite Em, Gc; reflexivity).
+  destruct Lg as [L1 L2 L3 L4 L5 L6 L7].
+  destruct (linked_link m (stk (base x)) (stk (base (lstep x t))) p nd t [FC (BRet n k 0)]
+              (chain x) (qhead m 0%nat) L1 L6 Hin E) as (Ll & Hp & Hz); [rewrite Es; cbn; tauto|exact Eo|exact L4|].
+  constructor.
+  - apply (GA_frame count x); auto; try (rewrite Em; reflexivity).
+    intros u. destruct (Nat.eq_dec u t) as [->|Ne]; [rewrite Es, E; obs|].
+    rewrite Eo by exact Ne. apply same_obs_refl.
+  - constructor; rewrite ?Eno, ?Gc, ?Gi, ?Gp; auto.
+    + rewrite Em. exact L3.
+    + rewrite Em. exact Ll.
+    + rewrite Em. exact L5.
+  - apply (GN_frame x); auto; try (intros; rewrite Em; reflexivity).
+    intros u. destruct (Nat.eq_dec u t) as [->|Ne]; [rewrite Es, E; reflexivity|]. rewrite Eo by exact Ne. reflexivity.
+  - destruct M as [M1 M2 M3 M4]. constructor.
+    + rewrite Ecn. exact M1.
+    + rewrite Em. eapply slots_none_same; eauto.
+    + intros u. rewrite Em. apply M3.
+    + intros u. destruct (Nat.eq_dec u t) as [->|Ne].
+      * rewrite Es. constructor. left. unfold presleep, Qp, Cp, Fp in *. rewrite Gp, Gc, Gi, Em.
+        cbn [fstate blocked pend fnode set_nnext]. split; [assumption|]. split; [assumption|]. left.
+        split; [assumption|]. split; [|assumption]. left. apply in_map_iff. exists (nd, t). auto.
+      * rewrite Eo by exact Ne. apply (lok_frame count x); [| | | |apply M4].
+        -- rewrite Em. constructor; reflexivity.
+        -- apply same_ghost_refl; assumption.
+        -- intros _. rewrite Em. cbn [qhead ndata nnext fnode fstate set_nnext]. fold m.
+           split; [assumption|]. split; [reflexivity|]. split; [auto|]. split; [reflexivity|].
+           intros Hnz. apply upd_other. intros Hq. apply Hnz. rewrite Hq. exact Hz.
+        -- intros Hu. rewrite Em. cbn [ndata nnext set_nnext]. split; [reflexivity|]. apply upd_other.
+           intros Hq. apply (g_held_nodes _ N u Hu). rewrite Hq. exact Hp.
+Qed.
+
+(* the fiber whose entry is consumed by a head update: queued -> in flight *)
+Lemma lok_pop x x' f sg :
+  Qp x f -> Cp x f -> is_wait sg -> ~ linking sg ->
+  mem (base x') = mem (base x) \/ (fstate (mem (base x')) f = fstate (mem (base x)) f /\
+     pend (mem (base x')) f = pend (mem (base x)) f /\ blocked (mem (base x')) f = blocked (mem (base x)) f) ->
+  pw x' = pw x -> infl x' = Some f ->
+  lok count x f sg -> lok count x' f sg.
+Proof.
+  intros Hq Hc Hw Hl Hm Ep Ei L.
+  assert (Hm' : fstate (mem (base x')) f = fstate (mem (base x)) f /\
+     pend (mem (base x')) f = pend (mem (base x)) f /\ blocked (mem (base x')) f = blocked (mem (base x)) f).
+  { destruct Hm as [->|Hm]; auto. }
+  destruct Hm' as (A & B & C).
+  assert (Q' : Qp x' f) by (unfold Qp in *; rewrite Ep; exact Hq).
+  assert (F' : Fp x' f) by (unfold Fp in *; exact Ei).
+  destruct L; try (destruct Hw as (n' & k' & Hw); discriminate);
+    repeat match goal with
+           | H : unq _ _ |- _ => destruct H as (_ & Hnc & _); contradiction
+           | H : serl _ _ |- _ => destruct H as (Hnq & _); contradiction
+           end; try contradiction; try (exfalso; apply Hl; exact I).
+  - constructor. destruct H as [P|P].
+    + left. destruct P as (P1 & P2 & [(P3 & P4 & P5)|(P3 & _)]); [|contradiction].
+      unfold presleep. rewrite A, B, C. split; [exact P1|]. split; [exact P2|]. left. auto.
+    + destruct P as (_ & P & _). contradiction.
+  - constructor. destruct H as [[S P]|[S P]].
+    + left. split; [exact S|]. destruct P as (P1 & P2 & [(P3 & P4 & P5)|(P3 & _)]); [|contradiction].
+      unfold presleep. rewrite A, B, C. split; [exact P1|]. split; [exact P2|]. left. auto.
+    + destruct P as (_ & P & _). contradiction.
+  - constructor. destruct H as (P1 & P2 & [(P3 & P4 & P5)|(P3 & _)]); [|contradiction].
+    unfold presleep. rewrite A, B, C. split; [exact P1|]. split; [exact P2|]. left. auto.
+  - constructor. destruct H as (P1 & P2 & [(P3 & P4 & P5)|(P3 & _)]); [|contradiction].
+    unfold presleep. rewrite A, B, C. split; [exact P1|]. split; [exact P2|]. left. auto.
+  - constructor. destruct H as (P1 & P2 & [(P3 & P4 & P5)|(P3 & _)]); [|contradiction].
+    unfold presleep. rewrite A, B, C. split; [exact P1|]. split; [exact P2|]. left. auto.
+  - constructor. destruct H as (P1 & P2 & [(P3 & P4 & P5)|(P3 & _)]); [|contradiction].
+    unfold presleep. rewrite A, B, C. split; [exact P1|]. split; [exact P2|]. left. auto.
+  - constructor. destruct H as [(P1 & P2 & P3 & P4 & P5)|(P1 & _)]; [|contradiction].
+    left. rewrite A, B, C. auto.
+Qed.
+
+Lemma step_ksethead x t wc h nx n k :
+  G count x -> stk (base x) t = [KSetHead 0 (count - 1) wc h nx; FC (BRet n k 1)] -> G count (lstep x t).
+Proof.
+  intros Gx E.
+  assert (Hinv : serl x t /\ infl x = None /\ h = qhead (mem (base x)) 0%nat /\ nx <> O /\ nnext (mem (base x)) h = nx).
+  { pose proof (g_local _ _ (g_m _ _ Gx) t) as L. rewrite E in L. inversion L; auto. }
+  destruct Hinv as (Hser & Hi & Hh & Hz & Hn).
+  pose proof Hser as (Sq & Squ & Sfn & Sfs).
+  destruct Gx as [A Lg N M].
+  set (m := mem (base x)) in *. rewrite Hh in Hn.
+  destruct Lg as [L1 L2 L3 L4 L5 L6 L7].
+  destruct (linked_head _ _ _ _ _ L4 Hn Hz) as (f & rest & Ech & Hlf & Lr).
+  assert (Hfc : In (nx, f) (chain x)) by (rewrite Ech; left; reflexivity).
+  destruct (L5 _ _ Hfc) as [Hdf Hfq].
+  assert (Ntf : t <> f) by (intros ->; exact (Sq Hfq)).
+  pose proof (g_cnt _ _ M) as Ec.
+  assert (K : kstep bc (cret (cnt (base x))) m t (stk (base x) t)
+              = (set_qhead m 0%nat nx, ev t (l_head 0) 19 (Zn nx), [KData 0 (count - 1) wc (qhead m 0%nat) nx; FC (BRet n k 1)])).
+  { rewrite E, Hh. reflexivity. }
+  destruct (lstep_view x t _ _ _ K) as (Em & Es & Eo & Ecn & Enn).
+  assert (Gc : chain (lstep x t) = rest) by (rewrite lstep_chain, E, Ech; reflexivity).
+  assert (Gi : infl (lstep x t) = Some f) by (rewrite lstep_infl, E, Ech; reflexivity).
+  assert (Gp : pw (lstep x t) = pw x) by (rewrite lstep_pw, E; reflexivity).
+  assert (Eb : bot (stk (base (lstep x t)) t) = bot (stk (base x) t) \/ exists n k, bot (stk (base x) t) = Some (BNext n k))
+    by (left; rewrite Es, E; reflexivity).
+  destruct (bot_same_logs x t Eb) as [Gr Ga].
+  assert (Eno : nodes x = qhead m 0%nat :: nx :: map fst rest) by (unfold nodes; rewrite Ech; reflexivity).
+  assert (Eno' : nodes (lstep x t) = nx :: map fst rest).
+  { unfold nodes. rewrite Em, Gc. reflexivity. }
+  rewrite Eno in L1, L2. apply NoDup_cons_iff in L1. destruct L1 as [Nh Nd'].
+  assert (Hh' : forall u, held (stk (base (lstep x t)) u) = if Nat.eqb u t then qhead m 0%nat else held (stk (base x) u)).
+  { intros u. destruct (Nat.eqb_spec u t) as [->|Ne]; [rewrite Es; reflexivity|rewrite Eo by exact Ne; reflexivity]. }
+  assert (Hht : held (stk (base x) t) = O) by (rewrite E; reflexivity).
+  rewrite Ech in L6. cbn in L6. apply NoDup_cons_iff in L6. destruct L6 as [Nf Ns'].
+  constructor.
+  - apply (GA_frame count x); auto; try (rewrite Em; reflexivity).
+    intros u. destruct (Nat.eq_dec u t) as [->|Ne]; [rewrite Es, E; obs|].
+    rewrite Eo by exact Ne. apply same_obs_refl.
+  - constructor; rewrite ?Eno', ?Gc, ?Gi, ?Gp.
+    + exact Nd'.
+    + intros nd' Hi'. apply L2. right. exact Hi'.
+    + rewrite Em. cbn [qtail qhead set_qhead]. unfold upd; cbn [Nat.eqb]. fold m in L3. rewrite L3, Ech. reflexivity.
+    + rewrite Em. cbn [qhead set_qhead]. unfold upd; cbn [Nat.eqb].
+      apply (linked_frame m _ (stk (base x))); [reflexivity| |exact Lr].
+      intros u Hu. rewrite Eo; [tauto|]. intros ->. apply Sq.
+      apply in_map_iff in Hu. destruct Hu as [[nd' u'] [Eq Hu]]. cbn in Eq. subst u'.
+      apply (L5 nd' t). rewrite Ech. right. exact Hu.
+    + intros nd' u Hi'. rewrite Em. cbn [ndata set_qhead]. apply L5. rewrite Ech. right. exact Hi'.
+    + exact Ns'.
+    + intros f' Hf'. injection Hf' as <-. split; assumption.
+  - destruct N as [N1 N2 N3 N4 N5]. constructor; intros *; rewrite ?Hh', ?Eno', ?Em; cbn [fnode set_qhead]; subst m.
+    + apply N1.
+    + destruct (Nat.eqb_spec u t) as [->|Ne]; destruct (Nat.eqb_spec u' t) as [->|Ne']; auto.
+      * intros _ Hq. exfalso. apply (N5 u'); [rewrite <- Hq; apply L2; left; reflexivity|].
+        rewrite <- Hq, Eno. left. reflexivity.
+      * intros Hu Hq. exfalso. apply (N5 u Hu). rewrite Hq, Eno. left. reflexivity.
+    + destruct (Nat.eqb_spec u' t) as [->|Ne']; [|apply N3].
+      intros Hu Hq. apply (N4 u Hu). rewrite Hq, Eno. left. reflexivity.
+    + intros Hu Hi'. apply (N4 u Hu). rewrite Eno. right. exact Hi'.
+    + destruct (Nat.eqb_spec u t) as [->|Ne]; [intros _; exact Nh|].
+      intros Hu Hi'. apply (N5 u Hu). rewrite Eno. right. exact Hi'.
+  - destruct M as [M1 M2 M3 M4]. constructor.
+    + rewrite Ecn. exact M1.
+    + rewrite Em. eapply slots_none_same; eauto.
+    + intros u. rewrite Em. apply M3.
+    + intros u. destruct (Nat.eq_dec u t) as [->|Ne].
+      * rewrite Es. apply (lk_kdata count _ _ wc _ _ n k f).
+        -- unfold serl, Qp, quiet in *. rewrite Gp, Em. auto.
+        -- apply L2. left. reflexivity.
+        -- rewrite Em. reflexivity.
+        -- exact Gi.
+        -- rewrite Em. exact Hdf.
+      * rewrite Eo by exact Ne. destruct (Nat.eq_dec u f) as [->|Nuf].
+        -- apply (lok_pop x); auto.
+           ++ unfold Cp. rewrite Ech. left. reflexivity.
+           ++ apply (g_pw _ _ A f Hfq).
+           ++ right. rewrite Em. auto.
+        -- apply (lok_frame count x); [| | | |apply M4].
+           ++ rewrite Em. constructor; reflexivity.
+           ++ constructor; unfold Qp, Cp, Fp; rewrite ?Gp, ?Gc, ?Gi, ?Hi, ?Ech; try tauto.
+              ** cbn. split; [auto|intros [H|H]; [congruence|exact H]].
+              ** split; [intros H; congruence|discriminate].
+              ** intros nd'. cbn. split; [auto|intros [H|H]; [congruence|exact H]].
+           ++ intros Hs. exfalso. apply Ne. apply (g_ser1 _ _ A); [exact Hs|rewrite E; do 2 eexists; reflexivity].
+           ++ intros _. rewrite Em. auto.
+Qed.
+End Steps2.
